@@ -55,3 +55,5 @@ func FSReadFile(p string) ([]byte, error)                 { return ioutil.ReadFi
 func FSStat(p string) (os.FileInfo, error)                { return os.Stat(p) }
 
 func FSMkdirAll(p string, m os.FileMode) error { return os.MkdirAll(p, m) }
+
+func FSRemove(p string) error { return os.Remove(p) }
